@@ -124,6 +124,8 @@ def run(ctx):
                         'YAML = Python: the saved file is the YAML definition of the Python-built model']
     # (A)
     expr = 'TokSeqs(%d, {"r", "rr", "r_in", "x_v1", "x", "m_in", "m_in2", "in"}, {"+", "(", " ", "*", "="})' % (3 if tier == 'quick' else 4)
+    # every delimiter of the equation language on either side of an identifier (e.g. r_in^2, m[r], a%r, r<x)
+    expr += ' \\cup TokSeqs(3, {"r", "rr", "r_in"}, Delims)' 
     c = tlc.cfg(constants=dict(Dev=set()), invariants=['ReplaceIsWholeIdentifier', 'Export'])
     r = tlc.run_tlc('Replace', c, workers=16, defs=dict(Eqs=expr), timeout=3000)
     ctx.add_tlc('replace', r, 'scanner (P) = token-wise substitution (M)')
